@@ -406,6 +406,7 @@ def _main(check, ctx, args, t0):
         else:
             new_keys.setdefault(key, []).append(r)
     # crashed runs: confirm in isolation, then report
+    flaky_crashes = []
     confirmed_kinds = {}
     for c in sorted(crashes, key=lambda c: (c["i"] is None, c["i"])):
         i = c["i"]
@@ -431,8 +432,7 @@ def _main(check, ctx, args, t0):
         elif kind == "timeout":
             raise HarnessError("run %d died in the batch and hangs in isolation" % i)
         else:
-            raise HarnessError("run %d killed its worker (status %s) but completes in isolation: not deterministic"
-                               % (i, c["status"]))
+            flaky_crashes.append((i, c["status"]))
     for key, rs in known_hit.items():
         print("KNOWN-FINDING: property=%s %s (%d runs; e.g. run index %d)" %
               (check.id, open_keys[key].get("what", key[1]), len(rs), rs[0]["i"]))
@@ -482,6 +482,11 @@ def _main(check, ctx, args, t0):
         reported.append(path)
         rc = 1
 
+    if flaky_crashes:
+        if rc == 0:
+            raise HarnessError("run(s) %s killed their worker but complete in isolation: not deterministic" % flaky_crashes[:5])
+        print("note: %d run(s) killed their worker process but completed when repeated alone (memory corruption by the code "
+              "under test is the likely cause; see the violations above)" % len(flaky_crashes))
     if unreproducible and rc == 0:
         raise HarnessError("violations that reproduce neither alone nor after the runs their worker executed before them: %s"
                            % [(k[1], i) for k, i, v in unreproducible][:5])
